@@ -1139,7 +1139,6 @@ func isSameInstr(v ssa.Value, ins ssa.Instruction) bool {
 	return ok && vi == ins
 }
 
-
 // intFormatArg: call formats an integer in base 10 (strconv.FormatInt / AppendInt / Itoa);
 // returns the index of the number argument, or -1.
 func intFormatArg(call *ssa.Call) int {
@@ -1160,7 +1159,6 @@ func intFormatArg(call *ssa.Call) int {
 	}
 	return -1
 }
-
 
 // projection: v is field #idx of base (a struct value, or a local struct variable).
 func projection(v ssa.Value) (base ssa.Value, fv *types.Var, ok bool) {
@@ -1248,7 +1246,6 @@ func pairedInStruct(c *chk.Ctx, resp ssa.Value, watcher *ssa.Go) (bool, string) 
 	}
 	return true, ""
 }
-
 
 func isSendInvoke(call *ssa.Call) bool {
 	return call != nil && call.Call.IsInvoke() && call.Call.Method.Name() == "Send"
